@@ -342,6 +342,8 @@ def i_SH(ins, fmap):
 @__npc
 def i_SHA(ins, fmap):
     dst, src1, src2 = ins.operands
+    # the shift count is the signed 6-bit field src2[5:0]
+    src2 = src2[0:6].signextend(32)
     x = fmap(src1)
     count = fmap(src2)
     if count._is_cst:
@@ -365,6 +367,8 @@ def i_SHA(ins, fmap):
 @__npc
 def i_SHAS(ins, fmap):
     dst, src1, src2 = ins.operands
+    # the shift count is the signed 6-bit field src2[5:0]
+    src2 = src2[0:6].signextend(32)
     x = fmap(src1)
     count = fmap(src2)
     if count._is_cst:
